@@ -12,6 +12,7 @@ CONSTANTS
   MaxEdits = 2
   EditOps <- OpsHs
   Weak_ChallengeNotBound = TRUE
+  Weak_ChallengeDHOnly = FALSE
   Weak_AcceptLowOrder = FALSE
   Weak_NonceNotIncremented = FALSE
   Weak_RecvNonceNotIncremented = FALSE
